@@ -68,7 +68,7 @@ func verifyFunc(eng *Engine, fn *ssa.Function, con *Contract, opts SolveOpts) *F
 			}
 		}
 		vc.obls = keep
-		vc.assumed[shortFuncName(fn)+": only its call-site assertions are checked here (no safety, postcondition or frame obligations); its postconditions remain a trusted summary"] = true
+		vc.assumed[shortFuncName(fn)+": only its call-site assertions are checked here (no safety, postcondition or frame obligations); its postconditions remain a trusted summary; preconditions of its callees are assumed, so executions that violate one are outside the assertion's claim"] = true
 	}
 	res.VC = vc
 	solveVC(vc, vc.obls, opts)
